@@ -237,7 +237,7 @@ def build(tier, seed):
                              'ss-nsig-2', 'ss-nsig-3', 'ss-nsig-4', 'ss-master-0', 'ss-master-1', 'ss-master-last',
                              'ss-shift-nonzero', 'ss-already-aligned', 'ss-window-decided', 'ss-window-rounding-tie',
                              'ss-window-off-grid', 'ss-window-bound-fraction-ge-half', 'ss-window-bound-fraction-lt-half',
-                             'ss-reported-average-relation',
+                             'ss-reported-average-relation', 'ss-realigned-after-edit',
                              'rot-near-special-angle', 'rot-variant-i64', 'rot-variant-i16', 'rot-variant-u8', 'rot-variant-f32',
                              'rot-variant-f64', 'rot-variant-history',
                              'tm-variant-i64', 'tm-variant-f64-transformed', 'tm-long-cluster', 'tm-length-odd', 'tm-length-even',
@@ -845,6 +845,43 @@ def run_ss(c):
                     r.fail('same_start.section-average', dict(sub, signal=j),
                            'section average of signal %d is %r, the master\'s is %r' % (j, a, ref),
                            observed=new[j], expected=ref)
+                # ---- the same cluster aligned AGAIN after its members were edited through their own public methods (plain, acceleration
+                #      and mixed clusters): whatever a signal keeps about a section must not survive a change of its values
+                if ongrid and (start, end) == windows[0][0]:
+                    for stname, st in (('custom', 'custom'), ('acc', 'acc'), ('mixed', ['acc' if j % 2 == 0 else 'custom' for j in range(m)])):
+                        sub2 = dict(sub, stypes=stname, sequence='same_start, add_constant to every member, same_start')
+                        cc('ss-realigned-after-edit')
+                        r.evals += 1
+                        try:
+                            cl = eqsig.Cluster([arrs[tuple(w)].copy() for w in ws], dt, master_index=mi, stypes=st)
+                            cl.same_start(**kw)
+                            for j in range(m):
+                                cl.signal_by_index(j).add_constant(0.5 * (j + 1) * (-1) ** j)
+                            held = [float(x) for x in cl.values_by_index(mi)]
+                            cl.same_start(**kw)
+                            cl.same_start(**kw)         # and once more: nothing is left to do
+                            new2 = [[float(x) for x in cl.values_by_index(j)] for j in range(m)]
+                        except Exception as e:  # noqa
+                            n_cmp += 1
+                            r.fail('same_start.realign', sub2, 'raises %s: %s' % (type(e).__name__, str(e)[:200]))
+                            continue
+                        n_cmp += 1
+                        if new2[mi] != held:
+                            r.fail('same_start.master-unchanged', sub2, 'master signal was modified by the second alignment', observed=new2[mi],
+                                   expected=held)
+                        best2 = None
+                        for (s_i, e_i) in iw:
+                            ref = _mean(new2[mi][s_i:e_i])
+                            bad = [(j, _mean(new2[j][s_i:e_i]), ref) for j in range(m)
+                                   if j != mi and (len(new2[j]) != L or not abs(_mean(new2[j][s_i:e_i]) - ref) <= tol)]
+                            if best2 is None or len(bad) < len(best2):
+                                best2 = bad
+                        n_cmp += m - 1
+                        n_trans += m - 1
+                        for j, a, ref in (best2 or ()):
+                            r.fail('same_start.realign', dict(sub2, signal=j),
+                                   'after editing the members and aligning again the section average of signal %d is %r, the master\'s is %r'
+                                   % (j, a, ref), observed=new2[j], expected=ref)
     r.states += n_states
     r.n_cmp += n_cmp
     r.transitions += n_trans
